@@ -121,7 +121,7 @@ theorem refund_neutral (s s' : State) (c : Addr) (h : Hash) (ds : List Desc)
     intro h' ds' he; cases he
   have hstep : step s (.crecv c h 2 ds) = .ok s' := hok
   cases crecv_cases hok with
-  | plain nxt snd _ _ hchk _ href _ hds =>
+  | plain nxt snd _ _ hchk _ href _ _ hds =>
     exact ⟨snd, hchk, href rfl, (applyDescs_frame hds).2.1,
       fun hg hw hf t => step_total hg hw hf hstep hne t⟩
   | token nxt snd out _ _ _ _ hst _ _ _ _ => cases hst
